@@ -236,21 +236,40 @@ Proof.
   apply Hne; [|reflexivity]. pose proof (coordinators_storage c) as Hs. intro E0. rewrite E0 in Hs. destruct Hs.
 Qed.
 
-Lemma start_unfold : forall o c,
-  start o c = match configure_all o c with
-              | None => start_list o c (coordinators c) []
-              | Some _ => Returned 1 nothing_started
-              end.
+Lemma start_unfold : forall o c a,
+  start o c a = match configure_all o c with
+                | None => start_list o c (coordinators c) []
+                | Some _ => Returned 1 nothing_started
+                end.
 Proof.
   intros. unfold start, start_with, configure_coordinators, handler_fixed. destruct (configure_all o c); reflexivity.
 Qed.
 
-(* C19, refusal: a configuration violates a documented requirement exactly when Start returns 1 with nothing started —
-   in particular without a panic leaving Start. *)
-Theorem refuse_iff_invalid : forall o c, order_ok o c ->
-  (requirements c <> [] <-> start o c = Returned 1 nothing_started).
+Lemma config_valid_unfold : forall o c a,
+  config_valid o c a = match configure_all o c with None => true | Some _ => false end.
 Proof.
-  intros o c Hok. rewrite start_unfold. pose proof (configure_iff_valid o c Hok) as Hiff.
+  intros. unfold config_valid, config_valid_with, configure_coordinators, handler_fixed.
+  destruct (configure_all o c); reflexivity.
+Qed.
+
+(* C19, the caller's context: neither the outcome of Start nor the flag it leaves behind depends on the state of the
+   ApplicationContext it is handed (fresh, constructed with ConfigurationValid = true, or re-used). *)
+Theorem context_independent : forall o c a1 a2,
+  start o c a1 = start o c a2 /\ config_valid o c a1 = config_valid o c a2.
+Proof. intros. rewrite !start_unfold, !config_valid_unfold. split; reflexivity. Qed.
+
+(* ... in particular after any history of earlier Start calls on the same context, whatever their configurations. *)
+Theorem reuse_independent : forall hist o c a,
+  start o c (app_after_history hist a) = start o c fresh_app /\
+  config_valid o c (app_after_history hist a) = config_valid o c fresh_app.
+Proof. intros. apply context_independent. Qed.
+
+(* C19, refusal: a configuration violates a documented requirement exactly when Start returns 1 with nothing started —
+   in particular without a panic leaving Start — from EVERY initial state of the application context. *)
+Theorem refuse_iff_invalid : forall o c a, order_ok o c ->
+  (requirements c <> [] <-> start o c a = Returned 1 nothing_started).
+Proof.
+  intros o c a Hok. rewrite start_unfold. pose proof (configure_iff_valid o c Hok) as Hiff.
   destruct (configure_all o c) eqn:E.
   - split; [reflexivity|]. intros _ Hreq. apply Hiff in Hreq. discriminate.
   - split.
@@ -258,31 +277,39 @@ Proof.
     + intro H. exfalso. exact (start_list_not_refusal o c H).
 Qed.
 
-Theorem start_never_panics : forall o c p, start o c <> Panicked p.
+Theorem start_never_panics : forall o c a p, start o c a <> Panicked p.
 Proof.
-  intros o c p. rewrite start_unfold. destruct (configure_all o c).
+  intros o c a p. rewrite start_unfold. destruct (configure_all o c).
   - discriminate.
   - destruct (start_list_shape o c (coordinators c) []) as (rc & st' & E & _). rewrite E. discriminate.
 Qed.
 
-(* C19, acceptance: the configuration satisfies every requirement exactly when ConfigurationValid is set; Start then
-   enters the Start of the storage subsystem (and of every coordinator in order until one fails to start), and returns 0
-   exactly when every coordinator was started. *)
-Theorem accept_iff_valid : forall o c, order_ok o c ->
-  (requirements c = [] <-> config_valid o c = true).
+(* C19, acceptance: the configuration satisfies every requirement exactly when ConfigurationValid is set afterwards;
+   Start then enters the Start of the storage subsystem (and of every coordinator in order until one fails to start),
+   and returns 0 exactly when every coordinator was started. *)
+Theorem accept_iff_valid : forall o c a, order_ok o c ->
+  (requirements c = [] <-> config_valid o c a = true).
 Proof.
-  intros o c Hok. unfold config_valid, configure_coordinators, handler_fixed.
+  intros o c a Hok. rewrite config_valid_unfold.
   pose proof (configure_iff_valid o c Hok) as Hiff.
   destruct (configure_all o c); split; intro H; try reflexivity; try discriminate.
   - apply Hiff in H. discriminate.
   - apply Hiff. reflexivity.
 Qed.
 
-Theorem valid_is_started : forall o c, order_ok o c -> requirements c = [] ->
-  exists rc started, start o c = Returned rc started /\ (rc = 0 \/ rc = 1) /\ started <> [] /\
+(* the flag and the result agree: an invalid configuration never leaves a set flag behind (a later Start, or any other
+   reader of the context, cannot mistake it for an accepted one) *)
+Theorem refused_flag_cleared : forall o c a, order_ok o c -> requirements c <> [] -> config_valid o c a = false.
+Proof.
+  intros o c a Hok Hne. destruct (config_valid o c a) eqn:E; [|reflexivity].
+  exfalso. apply Hne. apply (accept_iff_valid o c a Hok). exact E.
+Qed.
+
+Theorem valid_is_started : forall o c a, order_ok o c -> requirements c = [] ->
+  exists rc started, start o c a = Returned rc started /\ (rc = 0 \/ rc = 1) /\ started <> [] /\
                      (forall k, In k started -> In k (coordinators c)) /\ (rc = 0 -> started = coordinators c).
 Proof.
-  intros o c Hok Hreq. rewrite start_unfold. apply (configure_iff_valid o c Hok) in Hreq. rewrite Hreq.
+  intros o c a Hok Hreq. rewrite start_unfold. apply (configure_iff_valid o c Hok) in Hreq. rewrite Hreq.
   destruct (start_list_shape o c (coordinators c) []) as (rc & st' & E & Hrc & mid & -> & Hne & Hall & Hin).
   exists rc, ([] ++ mid). simpl. repeat split; auto.
   apply Hne. pose proof (coordinators_storage c) as Hs. intro E0. rewrite E0 in Hs. destruct Hs.
@@ -304,12 +331,12 @@ Proof.
   rewrite (start_coord_order o1 o2 c k H1 H2). destruct (start_coord o2 c k); auto.
 Qed.
 
-Theorem order_independent : forall o1 o2 c, order_ok o1 c -> order_ok o2 c ->
-  start o1 c = start o2 c /\ config_valid o1 c = config_valid o2 c.
+Theorem order_independent : forall o1 o2 c a, order_ok o1 c -> order_ok o2 c ->
+  start o1 c a = start o2 c a /\ config_valid o1 c a = config_valid o2 c a.
 Proof.
-  intros o1 o2 c H1 H2.
+  intros o1 o2 c a H1 H2.
   pose proof (configure_iff_valid o1 c H1) as I1. pose proof (configure_iff_valid o2 c H2) as I2.
-  unfold config_valid, configure_coordinators, handler_fixed. rewrite !start_unfold.
+  rewrite !config_valid_unfold, !start_unfold.
   destruct (configure_all o1 c) eqn:E1; destruct (configure_all o2 c) eqn:E2; try (split; reflexivity).
   - exfalso. assert (requirements c = []) as R by (apply I2; reflexivity). apply I1 in R. discriminate.
   - exfalso. assert (requirements c = []) as R by (apply I1; reflexivity). apply I2 in R. discriminate.
@@ -430,10 +457,10 @@ Qed.
 (* ------------------------------------------------------------------------------------------------------------------ *)
 (* The unchanged tree (F10): the old recover handler panics again, so Start never returns 1 for an invalid configuration *)
 (* ------------------------------------------------------------------------------------------------------------------ *)
-Theorem old_handler_never_refuses : forall o c, order_ok o c -> requirements c <> [] ->
-  exists p, start_old o c = Panicked p.
+Theorem old_handler_never_refuses : forall o c a, order_ok o c -> requirements c <> [] ->
+  exists p, start_old o c a = Panicked p.
 Proof.
-  intros o c Hok Hne. unfold start_old, start_with, configure_coordinators.
+  intros o c a Hok Hne. unfold start_old, start_with, configure_coordinators.
   pose proof (configure_iff_valid o c Hok) as Hiff.
   destruct (configure_all o c) as [p|] eqn:E.
   - destruct p; simpl; eauto.
@@ -484,28 +511,60 @@ Definition ex_bad_depth : config := {|
 
 Example ex_valid_accepted :
   requirements ex_valid = [] /\
-  start (canonical_order ex_valid) ex_valid
+  start (canonical_order ex_valid) ex_valid fresh_app
     = Returned 0 [CZookeeper; CStorage; CEvaluator; CHttpserver; CNotifier; CCluster; CConsumer] /\
-  config_valid (canonical_order ex_valid) ex_valid = true.
+  config_valid (canonical_order ex_valid) ex_valid fresh_app = true /\
+  app_after_history [(canonical_order ex_valid, ex_valid)] fresh_app = used_app.
 Proof. vm_compute. repeat split. Qed.
 
+(* refused from a fresh context AND from the context the valid example left behind *)
 Example ex_bad_regex_refused :
   requirements ex_bad_regex = [(StorageAllow, 1)] /\
-  start (canonical_order ex_bad_regex) ex_bad_regex = Returned 1 nothing_started /\
+  start (canonical_order ex_bad_regex) ex_bad_regex fresh_app = Returned 1 nothing_started /\
+  start (canonical_order ex_bad_regex) ex_bad_regex
+        (app_after_history [(canonical_order ex_valid, ex_valid)] fresh_app) = Returned 1 nothing_started /\
+  config_valid (canonical_order ex_bad_regex) ex_bad_regex used_app = false /\
   configured (canonical_order ex_bad_regex) ex_bad_regex = [CZookeeper; CStorage].
 Proof. vm_compute. repeat split. Qed.
 
 (* F10 witnesses: on the unchanged handler both kinds of invalid configuration leave Start by a panic. *)
 Theorem refuse_refuted :
-  exists o c, order_ok o c /\ requirements c <> [] /\ start_old o c <> Returned 1 nothing_started /\
-              exists p, start_old o c = Panicked p.
+  exists o c, order_ok o c /\ requirements c <> [] /\
+              forall a, start_old o c a <> Returned 1 nothing_started /\ exists p, start_old o c a = Panicked p.
 Proof.
   exists (canonical_order ex_bad_regex), ex_bad_regex. split; [apply canonical_order_ok|].
-  split; [vm_compute; discriminate|]. split; [vm_compute; discriminate|].
+  split; [vm_compute; discriminate|]. intro a. split; [vm_compute; discriminate|].
   exists (PanicZap StorageAllow 1). vm_compute. reflexivity.
 Qed.
 
 Example refuse_refuted_error_value :
-  start_old (canonical_order ex_bad_depth) ex_bad_depth = Panicked (PanicError HandlerAssertion 1) /\
-  start (canonical_order ex_bad_depth) ex_bad_depth = Returned 1 nothing_started.
+  start_old (canonical_order ex_bad_depth) ex_bad_depth fresh_app = Panicked (PanicError HandlerAssertion 1) /\
+  start (canonical_order ex_bad_depth) ex_bad_depth fresh_app = Returned 1 nothing_started.
 Proof. vm_compute. split; reflexivity. Qed.
+
+(* ------------------------------------------------------------------------------------------------------------------ *)
+(* Why the initial context is an input: a recover handler that forgets `app.ConfigurationValid = false`                 *)
+(* ------------------------------------------------------------------------------------------------------------------ *)
+(* From a fresh context it behaves exactly like the real handler ... *)
+Theorem noreset_handler_same_on_fresh : forall o c,
+  start_with handler_noreset o c fresh_app = start o c fresh_app /\
+  config_valid_with handler_noreset o c fresh_app = config_valid o c fresh_app.
+Proof.
+  intros o c. unfold start, config_valid, config_valid_with, start_with, configure_coordinators, handler_noreset, handler_fixed, fresh_app.
+  cbn [app_valid]. destruct (configure_all o c); split; reflexivity.
+Qed.
+
+(* ... and from a context whose flag is set it refuses NO configuration at all: subsystems are started. *)
+Theorem noreset_handler_never_refuses_used : forall o c,
+  start_with handler_noreset o c used_app <> Returned 1 nothing_started /\
+  config_valid_with handler_noreset o c used_app = true.
+Proof.
+  intros o c. unfold config_valid_with, start_with, configure_coordinators, handler_noreset, used_app. cbn [app_valid].
+  destruct (configure_all o c); split; try reflexivity; apply start_list_not_refusal.
+Qed.
+
+Example noreset_handler_accepts_invalid :
+  requirements ex_bad_regex <> [] /\
+  start_with handler_noreset (canonical_order ex_bad_regex) ex_bad_regex used_app
+    = Returned 0 [CZookeeper; CStorage; CEvaluator; CHttpserver; CNotifier; CCluster; CConsumer].
+Proof. split; [vm_compute; discriminate | vm_compute; reflexivity]. Qed.
